@@ -74,8 +74,11 @@ func (e *ExecutorEngine) StartOperation(ctx context.Context, id string, payload 
 
 // StopSubscription will stop an active subscription.
 func (e *ExecutorEngine) StopSubscription(id string, eventHandler EventHandler) error {
-	e.subCancellations.Cancel(id)
-	eventHandler.Emit(EventTypeOnSubscriptionCompleted, id, nil, nil)
+	// Only an operation that was still active is completed by this call: a client's complete can cross
+	// the server's terminal message on the wire, or name an id that never existed.
+	if e.subCancellations.Cancel(id) {
+		eventHandler.Emit(EventTypeOnSubscriptionCompleted, id, nil, nil)
+	}
 	return nil
 }
 
